@@ -68,7 +68,7 @@ class GroupingService:
             DataFrame with duplicate values replaced with null
         """
         # Create a mask for rows where the value is different from the previous row
-        is_first_occurrence = (df[column] != df[column].shift(1)) | (
+        is_first_occurrence = df[column].ne_missing(df[column].shift(1)) | (
             pl.int_range(df.height) == 0
         )  # First row is always shown
 
@@ -114,20 +114,22 @@ class GroupingService:
 
             # Higher-level columns changed condition
             for higher_col in group_by[:i]:
-                conditions.append(pl.col(higher_col) != pl.col(higher_col).shift(1))
+                conditions.append(
+                    pl.col(higher_col).ne_missing(pl.col(higher_col).shift(1))
+                )
 
             # This column changed condition
-            conditions.append(pl.col(column) != pl.col(column).shift(1))
+            conditions.append(pl.col(column).ne_missing(pl.col(column).shift(1)))
 
             # Combine all conditions with OR
             should_show = conditions[0]
             for condition in conditions[1:]:
                 should_show = should_show | condition
 
-            # Apply suppression
-            suppressed_values = (
-                pl.when(should_show).then(pl.col(column)).otherwise(None)
-            )
+            # Apply suppression (conditions are evaluated on the original data,
+            # not on columns that were already suppressed)
+            show_mask = df.select(should_show.alias("_show"))["_show"]
+            suppressed_values = pl.when(show_mask).then(df[column]).otherwise(None)
             result_df = result_df.with_columns(suppressed_values.alias(column))
 
         return result_df
